@@ -22,7 +22,11 @@ class EndOfTable(StopIteration):
 
 # StopIteration: what a component's read raises when it calls next() on an exhausted iterator; iterator-protocol plumbing
 # (iter(callable, sentinel), generators) swallows it
-EXC_TYPES = [ValueError, KeyError, CustomError, CustomBase, StopIteration, EndOfTable]
+class DeviceError(OSError):
+    pass
+
+
+EXC_TYPES = [ValueError, KeyError, CustomError, CustomBase, StopIteration, EndOfTable, DeviceError]
 TMP = os.path.join(lib.SCRATCH, "tmp_c17")
 
 
@@ -211,8 +215,11 @@ class CHECK(Check):
                             v = buf.getvalue()
                         out["output"] = v.decode("latin-1") if binary else v
                 else:
-                    with open(path, "rb") as fh:
-                        out["output"] = fh.read().decode("latin-1")
+                    if os.path.exists(path):
+                        with open(path, "rb") as fh:
+                            out["output"] = fh.read().decode("latin-1")
+                    else:
+                        out["output"] = "<the destination file does not exist>"
         finally:
             shutil.rmtree(TMP, ignore_errors=True)
         if raised is None:
